@@ -746,3 +746,84 @@ def run_unmarked_set(prog, tier, repo):
                               f'marking is incomplete and reclaims strings that are still referenced')
     res.floor('mutations of the pending-module set', n, 2)
     return [res]
+
+
+# ---------------------------------------------------------------------------------------------------------------------
+# PER-ELEMENT-TOTAL (C17): some heap operations are owed to *every* element of a collection - each part of a module
+# reference is made permanent before the parts are leaked into the module table, each string of a marked module is marked.
+# A loop (or `for_each`) whose body performs such an operation must walk the whole collection: the iterator it is driven by
+# is built from the collection through adapters that look at every element (`iter`, `map`, `filter`, `copied`, ...), never
+# through one that cuts the sequence by position (`take_while`, `skip`, `take`, `step_by`, ...): what lies behind the cut
+# is skipped although the obligation is per element.
+
+TRUNCATING = ('take_while', 'skip_while', 'take', 'skip', 'step_by', 'map_while', 'nth', 'last', 'next_back', 'rev_take',
+              'take_any', 'skip_any', 'dropping', 'dropping_back', 'while_some', 'take_while_ref', 'take_while_inclusive')
+
+
+def run_per_element_total(prog, tier, repo):
+    res = RuleResult('PER-ELEMENT-TOTAL', 'C17: a loop that makes strings permanent or marks them walks its whole collection - the '
+                     'iterator driving it contains no adapter that cuts the sequence by position')
+    # the per-element operations: heap methods that write the Permanent variant of a slot or set the mark of a slot
+    ops = set()
+    for b in prog.bodies.values():
+        if b.crate != 'samlang_heap' or '::tests' in b.name or b.kind == 'closure':
+            continue
+        short = b.name.split('::')[-1]
+        if short.startswith(('make_string_permanent', 'mark')) or short in ('make_permanent',):
+            ops.add(b.id)
+    if not ops:
+        res.cannot_decide('the per-element heap operations (make_string_permanent / mark*)')
+        return [res]
+    n = 0
+    for b in sorted(prog.bodies.values(), key=lambda x: x.name):
+        if b.crate not in ('samlang_heap', 'samlang_services') or '::tests' in b.name or '_tests::' in b.name:
+            continue
+        if not any(bl.term[0] == 'call' and callee(bl.term)[0] in ops for bl in b.blocks if not bl.cleanup):
+            continue
+        cfg = cfg_of(b)
+        heads = {h for (_, h) in cfg.back_edges()}
+        for bi, bl in enumerate(b.blocks):
+            t = bl.term
+            if bl.cleanup or t[0] != 'call' or not t[3]:
+                continue
+            short = (callee(t)[1] or '').split('::')[-1]
+            if short != 'next':
+                continue
+            # is an obligation op inside the loop this next() drives?
+            loop_blocks = {x for x in cfg.reachable(bi) if bi in cfg.reachable(x)}
+            if not any(b.blocks[x].term[0] == 'call' and callee(b.blocks[x].term)[0] in ops for x in loop_blocks if not b.blocks[x].cleanup):
+                continue
+            n += 1
+            # trace the iterator back through its adapters
+            r, _ = operand_root(b, t[3][0])
+            chain, cur, cut = [], r, None
+            for _i in range(20):
+                if cur is None:
+                    break
+                sd = single_def(b, cur)
+                if not sd or sd[1] != 'term':
+                    if sd and sd[2][0] in ('use', 'ref'):
+                        nxt = sd[2][1][1].local if sd[2][0] == 'use' and sd[2][1][0] in ('c', 'm') else (sd[2][2].local if sd[2][0] == 'ref' else None)
+                        if nxt is None or nxt == cur:
+                            break
+                        cur = nxt
+                        continue
+                    break
+                t2 = sd[2]
+                s2 = (callee(t2)[1] or '').split('::')[-1]
+                chain.append(s2)
+                if s2 in TRUNCATING:
+                    cut = (s2, t2[7])
+                if not t2[3] or t2[3][0][0] not in ('c', 'm'):
+                    break
+                cur, _p = operand_root(b, t2[3][0])
+            k = sum(1 for i in res.instances if i.key.startswith(f'loop:{b.name}#')) + 1
+            key = f'loop:{b.name}#{k}'
+            if cut:
+                res.violation(key, b.loc(cut[1]), f'{b.name}: the loop that makes strings permanent / marks them is driven by an '
+                              f'iterator cut by `{cut[0]}`: elements behind the cut are never visited, stay collectable and are '
+                              f'reclaimed by the next sweep while the table they were stored in still refers to them')
+            else:
+                res.ok(key, b.loc(t[7]), 'walks the whole collection (' + ' <- '.join(chain or ['direct']) + ')')
+    res.floor('loops performing a per-element heap obligation', n, 2)
+    return [res]
